@@ -164,19 +164,19 @@ Definition rec_in_call (cf : icfg) (a : list pyval) (kw : list (str * pyval)) (b
         let s2 := set_icpt false s1 in
         let pre := EBegin al a kw :: EBody al a kw :: l1 in
         match o with
-        | OExn e => (o, s2, pre ++ (if active s2 then [EWrite key (DExn e)] else []) ++ [ECall al o])
+        | OExn e => (o, s2, pre ++ (if active s2 then [EWrite key (DExn e)] else []) ++ [EAnswer al o; ECall al o])
         | OVal v =>
             if active s2 then
               (* the recording and its parameters are snapshotted before the handler runs (:850-853) *)
               let '(s3, lh) := if i_prep_discards cf then discard s2 else (s2, []) in
               match prep_input (i_handler cf) v (full_args (i_static cf) a) kw with
-              | None => let '(s4, la) := discard s3 in (o, s4, pre ++ lh ++ la ++ [ECall al o])
+              | None => let '(s4, la) := discard s3 in (o, s4, pre ++ lh ++ la ++ [EAnswer al o; ECall al o])
               | Some rv =>
                   (* written into the snapshotted recording; invisible if that one was just aborted *)
-                  (o, s3, pre ++ lh ++ (if active s3 then [EWrite key (DVal rv)] else []) ++ [ECall al o])
+                  (o, s3, pre ++ lh ++ (if active s3 then [EWrite key (DVal rv)] else []) ++ [EAnswer al o; ECall al o])
               end
-            else (o, s2, pre ++ [ECall al o])
-        | OInt => (o, s2, pre ++ [ECall al o])
+            else (o, s2, pre ++ [EAnswer al o; ECall al o])
+        | OInt => (o, s2, pre ++ [EAnswer al o; ECall al o])
         end
     end
   else
@@ -198,15 +198,15 @@ Definition rec_out_call (cf : ocfg) (a : list pyval) (kw : list (str * pyval)) (
         (* prepare failed: discard, then the original is called plainly (:646-648) *)
         let '(s1, la) := discard s0 in
         let '(o, s2, l1) := body s1 in
-        (o, s2, EBegin al a kw :: ESent al a kw :: la ++ EBody al a kw :: l1 ++ [ECall al o])
+        (o, s2, EBegin al a kw :: ESent al None :: la ++ EBody al a kw :: l1 ++ [ECall al o])
     | Some d =>
         let '(o, s1, l1) := body (set_icpt true s0) in
         let s2 := set_icpt false s1 in
-        let pre := EBegin al a kw :: ESent al a kw :: EWrite (okey_output al n) d :: EBody al a kw :: l1 in
+        let pre := EBegin al a kw :: ESent al (Some d) :: EWrite (okey_output al n) d :: EBody al a kw :: l1 in
         match o with
-        | OExn e => (o, s2, pre ++ (if active s2 then [EWrite (okey_result al n) (DExn e)] else []) ++ [ECall al o])
-        | OVal v => (o, s2, pre ++ (if active s2 then [EWrite (okey_result al n) (DVal v)] else []) ++ [ECall al o])
-        | OInt => (o, s2, pre ++ [ECall al o])
+        | OExn e => (o, s2, pre ++ (if active s2 then [EWrite (okey_result al n) (DExn e)] else []) ++ [EAnswer al o; ECall al o])
+        | OVal v => (o, s2, pre ++ (if active s2 then [EWrite (okey_result al n) (DVal v)] else []) ++ [EAnswer al o; ECall al o])
+        | OInt => (o, s2, pre ++ [EAnswer al o; ECall al o])
         end
     end
   else
@@ -292,7 +292,7 @@ Section Play.
   Definition play_in_call (cf : icfg) (a : list pyval) (kw : list (str * pyval)) (body : pst -> pres) (s : pst) : pres :=
     let al := i_alias cf in
     match input_keys cf a kw with
-    | None => (OExn EKeyCreation, s, [EBegin al a kw; ECall al (OExn EKeyCreation)])     (* :730-731 *)
+    | None => (OExn EKeyCreation, s, [EBegin al a kw; EAnswer al (OExn EKeyCreation); ECall al (OExn EKeyCreation)])     (* :730-731 *)
     | Some keys =>
         match first_present keys R with
         | Some key =>
@@ -301,15 +301,15 @@ Section Play.
                      | Some (DVal v) => restore_input (i_handler cf) v (full_args (i_static cf) a) kw
                      | _ => OExn EOutside
                      end in
-            (o, s, [EBegin al a kw; ECall al o])
+            (o, s, [EBegin al a kw; EAnswer al o; ECall al o])
         | None =>
             match missing_policy cf a kw with
             | RunOriginal =>
                 (* :743-745: the original runs outside any interception context *)
                 let '(o, s1, l1) := body s in
                 (o, s1, EBegin al a kw :: EBody al a kw :: l1 ++ [ECall al o])
-            | Substitute v => (OVal v, s, [EBegin al a kw; ECall al (OVal v)])
-            | RaiseMissing => (OExn EKeyMissing, s, [EBegin al a kw; ECall al (OExn EKeyMissing)])
+            | Substitute v => (OVal v, s, [EBegin al a kw; EAnswer al (OVal v); ECall al (OVal v)])
+            | RaiseMissing => (OExn EKeyMissing, s, [EBegin al a kw; EAnswer al (OExn EKeyMissing); ECall al (OExn EKeyMissing)])
             end
         end
     end.
@@ -329,7 +329,7 @@ Section Play.
              | Some _ => OExn EOutside
              | None => if o_fail cf then OExn EKeyMissing else OVal (o_default cf)
              end in
-    (o, s0, EBegin al a kw :: ESent al a kw :: lo ++ [ECall al o]).
+    (o, s0, EBegin al a kw :: ESent al (out_datum cf a kw) :: lo ++ [EAnswer al o; ECall al o]).
 
   Fixpoint play_exec (c : code) (env : list pyval) (s : pst) : pres :=
     match c with
